@@ -7,7 +7,8 @@ use serde_json::{json, Value};
 
 const RULE: &str = "1-8 named rule groups (0-2 generated rules each, incl. empty groups, comment-only lines and no-op rules) x phrases of 1-3 generated words: trace_changes must report strictly increasing group indices, exactly the groups whose application changed the phrase (groups whose second rule undoes the first are planted on purpose; a reported group whose rendering is unchanged is looked up through the structural hook), each with the phrase as run(G0..Gi) returns it; the last state (or the input) must equal run(G); get_trace_string must print the same sequence with the groups' names; when a rule errors both calls must fail. Non-trivial = at least one group reported and at least one group not reported; distinct = distinct (groups, phrase).";
 
-pub struct Case { pub groups: Vec<Vec<String>>, pub phrase: String }
+/// `into`: deromanisers handed to the trace and to the plain runs alike (the phrase then uses their strings)
+pub struct Case { pub groups: Vec<Vec<String>>, pub phrase: String, pub into: Vec<String> }
 
 pub(crate) fn gen(r: &mut Rng) -> Case {
     let cfg = RuleCfg { max_side: 2, ..RuleCfg::default() };
@@ -28,23 +29,25 @@ pub(crate) fn gen(r: &mut Rng) -> Case {
         groups.push(g);
     }
     let wc = WordCfg::default();
-    let phrase = (0..r.range(1, 3)).map(|_| rand_word(r, &wc)).collect::<Vec<_>>().join(" ");
-    Case { groups, phrase }
+    let mut phrase = (0..r.range(1, 3)).map(|_| rand_word(r, &wc)).collect::<Vec<_>>().join(" ");
+    let into: Vec<String> = if r.chance(1, 6) { vec!["Ж > ʒ".to_string(), "ш > ʃ:[+long]".to_string()] } else { vec![] };
+    if !into.is_empty() { phrase = phrase.replacen(['s', 'z', 'ʃ'], "Ж", 1).replacen(['f', 'x', 'h'], "ш", 1); }
+    Case { groups, phrase, into }
 }
 
 fn rgroups(c: &Case) -> Vec<RuleGroup> { c.groups.iter().enumerate().map(|(i, g)| RuleGroup::from(format!("group {i}"), g.clone(), String::new())).collect() }
 
 pub fn judge(rep: &mut Report, c: &Case) {
     let gs = rgroups(c);
-    let cj = || json!({"groups": c.groups, "phrase": c.phrase});
+    let cj = || json!({"groups": c.groups, "phrase": c.phrase, "into": c.into});
     rep.eval(1);
-    let run_prefix = |k: usize| run_pub(&gs[..k], &[c.phrase.clone()], &[], &[]);
+    let run_prefix = |k: usize| run_pub(&gs[..k], &[c.phrase.clone()], &c.into, &[]);
     let full = run_prefix(gs.len());
-    let trace = match guard(DEFAULT_BUDGET, || asca::trace_changes(&gs, c.phrase.clone(), &[])) {
+    let trace = match guard(DEFAULT_BUDGET, || asca::trace_changes(&gs, c.phrase.clone(), &c.into)) {
         Outcome::Done(Ok(t)) => Ok(t), Outcome::Done(Err(e)) => Err(err_kind(&e)),
         o => { rep.abort(o.abort_sig().unwrap_or_default(), cj); return }
     };
-    let tstr = match guard(DEFAULT_BUDGET, || asca::get_trace_string(&gs, c.phrase.clone(), &[])) {
+    let tstr = match guard(DEFAULT_BUDGET, || asca::get_trace_string(&gs, c.phrase.clone(), &c.into)) {
         Outcome::Done(Ok(t)) => Ok(t), Outcome::Done(Err(e)) => Err(err_kind(&e)),
         o => { rep.abort(o.abort_sig().unwrap_or_default(), cj); return }
     };
@@ -113,6 +116,6 @@ pub fn explore(ctx: &Ctx, shard: usize, n: usize) -> Report {
 pub fn replay(_ctx: &Ctx, case: &Value) -> Report {
     let mut rep = Report::new(RULE);
     let groups = case["groups"].as_array().map(|a| a.iter().map(|g| g.as_array().map(|x| x.iter().map(|s| s.as_str().unwrap_or("").to_string()).collect()).unwrap_or_default()).collect()).unwrap_or_default();
-    judge(&mut rep, &Case { groups, phrase: jstr(case, "phrase") });
+    judge(&mut rep, &Case { groups, phrase: jstr(case, "phrase"), into: jstrs(case, "into") });
     rep
 }
